@@ -37,7 +37,7 @@ REACH = [("yamlpath/processor.py", "_get_nodes_by_key,_get_nodes_by_index,_get_n
          ("yamlpath/common/searches.py", "search_matches", "Searches.search_matches")]
 EXHAUSTIVE_NOTE = "documents <=3 nodes x paths <=2 segments over the reduced vocabulary (thorough tier only)"
 SIZES = {"quick": dict(grid_stride=4, rnd=240000), "thorough": dict(grid_stride=1, rnd=2500000)}
-REQUIRED_COUNTERS = ["model_decided", "compared_required", "docs_with_shared_containers"]
+REQUIRED_COUNTERS = ["model_decided", "compared_required", "docs_with_shared_containers", "queries_through_path_object_with_forced_separator"]
 
 
 def flatten(x, out):
@@ -54,7 +54,7 @@ def flatten(x, out):
         out.append(x)
 
 
-_REUSE = [0, None]
+_REUSE = [0, None, 0]
 
 
 def real(data, text, mode):
@@ -77,10 +77,23 @@ def _real(data, text, mode):
             text = _REUSE[1]
         except Exception:
             pass
+    kw = {}
+    if _REUSE[0] % 11 == 0 and isinstance(text, str):
+        # every 11th query hands over a fresh path OBJECT together with pathsep= naming the OTHER notation's separator:
+        # that argument decides how the path is shown, the answer is the one for the path as it was written
+        from vf.core.yp import YAMLPath
+        from yamlpath.enums import PathSeparators
+        try:
+            obj = YAMLPath(text)
+            kw = {"pathsep": PathSeparators.DOT if text.startswith("/") else PathSeparators.FSLASH}
+            text = obj
+            _REUSE[2] += 1
+        except Exception:
+            kw = {}
     try:
         if mode == "exists":
-            return ("EXISTS", p.exists(text))
-        res = list(p.get_nodes(text, mustexist=(mode == "required")))
+            return ("EXISTS", p.exists(text, **kw))
+        res = list(p.get_nodes(text, mustexist=(mode == "required"), **kw))
     except UnmatchedYAMLPathException:
         return ("UNMATCHED",)
     except YAMLPathException as e:
@@ -338,6 +351,7 @@ def run_shard(ctx):
             ctx.count("random_cases")
             if done <= 2:
                 ctx.sample({"doc": text, "path": gp.render(segs, "."), "regime": regime})
+    ctx.counters["queries_through_path_object_with_forced_separator"] = _REUSE[2]
 
 
 def finish(merged):
